@@ -1380,6 +1380,234 @@ impl Write for StdFile {
     }
 }
 
+/**
+Verification hooks.
+
+This module only exists when compiling with `--cfg emit_rs_emit_verif`. It is not part of the public API.
+*/
+#[cfg(emit_rs_emit_verif)]
+#[allow(missing_docs)]
+pub mod verif {
+    use super::*;
+
+    /**
+    A public mirror of the private `Filesystem` trait.
+    */
+    pub trait VerifFilesystem: Send + Sync + 'static {
+        fn create_dir_all(&self, path: &Path) -> io::Result<()>;
+        fn sync_parent(&self, path: &Path) -> io::Result<()>;
+        fn read_dir_files(&self, path: &Path) -> io::Result<Vec<PathBuf>>;
+        fn remove_file(&self, path: &Path) -> io::Result<()>;
+        fn open_new(&self, path: &Path) -> io::Result<Box<dyn VerifFile>>;
+        fn open_existing(&self, path: &Path) -> io::Result<Box<dyn VerifFile>>;
+    }
+
+    /**
+    A public mirror of the private `File` trait.
+    */
+    pub trait VerifFile: Send + Sync + 'static {
+        fn len(&self) -> io::Result<usize>;
+        fn write(&mut self, buf: &[u8]) -> io::Result<usize>;
+        fn flush(&mut self) -> io::Result<()>;
+        fn sync_all(&mut self) -> io::Result<()>;
+    }
+
+    struct FilesystemAdapter<F>(F);
+
+    struct FileAdapter(Box<dyn VerifFile>);
+
+    impl<F: VerifFilesystem> Filesystem for FilesystemAdapter<F> {
+        fn create_dir_all(&self, path: &Path) -> io::Result<()> {
+            self.0.create_dir_all(path)
+        }
+
+        fn sync_parent(&self, path: &Path) -> io::Result<()> {
+            self.0.sync_parent(path)
+        }
+
+        fn read_dir_files(&self, path: &Path) -> io::Result<Box<dyn Iterator<Item = PathBuf>>> {
+            Ok(Box::new(self.0.read_dir_files(path)?.into_iter()))
+        }
+
+        fn remove_file(&self, path: &Path) -> io::Result<()> {
+            self.0.remove_file(path)
+        }
+
+        fn open_new(&self, path: &Path) -> io::Result<Box<dyn File + Send + Sync>> {
+            Ok(Box::new(FileAdapter(self.0.open_new(path)?)))
+        }
+
+        fn open_existing(&self, path: &Path) -> io::Result<Box<dyn File + Send + Sync>> {
+            Ok(Box::new(FileAdapter(self.0.open_existing(path)?)))
+        }
+    }
+
+    impl File for FileAdapter {
+        fn len(&self) -> io::Result<usize> {
+            self.0.len()
+        }
+
+        fn sync_all(&mut self) -> io::Result<()> {
+            self.0.sync_all()
+        }
+    }
+
+    impl Write for FileAdapter {
+        fn write(&mut self, buf: &[u8]) -> io::Result<usize> {
+            self.0.write(buf)
+        }
+
+        fn flush(&mut self) -> io::Result<()> {
+            self.0.flush()
+        }
+    }
+
+    /**
+    How files roll.
+    */
+    #[derive(Debug, Clone, Copy)]
+    pub enum VerifRollBy {
+        Day,
+        Hour,
+        Minute,
+    }
+
+    impl VerifRollBy {
+        fn into_roll_by(self) -> RollBy {
+            match self {
+                VerifRollBy::Day => RollBy::Day,
+                VerifRollBy::Hour => RollBy::Hour,
+                VerifRollBy::Minute => RollBy::Minute,
+            }
+        }
+    }
+
+    /**
+    The real file worker, over injected components.
+    */
+    pub struct VerifWorker {
+        worker: Worker,
+        metrics: Arc<InternalMetrics>,
+    }
+
+    impl VerifWorker {
+        pub fn new(
+            fs: impl VerifFilesystem,
+            clock: impl Clock + Send + Sync + 'static,
+            rng: impl Rng + Send + Sync + 'static,
+            file_set: impl AsRef<Path>,
+            roll_by: VerifRollBy,
+            reuse_files: bool,
+            max_files: usize,
+            max_file_size_bytes: usize,
+            separator: &'static [u8],
+        ) -> Result<Self, Error> {
+            let (dir, file_prefix, file_ext) =
+                dir_prefix_ext(file_set.as_ref()).map_err(Error::new)?;
+
+            let metrics = Arc::new(InternalMetrics::default());
+
+            Ok(VerifWorker {
+                worker: Worker::new(
+                    metrics.clone(),
+                    FilesystemAdapter(fs),
+                    clock,
+                    rng,
+                    dir,
+                    file_prefix,
+                    file_ext,
+                    roll_by.into_roll_by(),
+                    reuse_files,
+                    max_files,
+                    max_file_size_bytes,
+                    separator,
+                ),
+                metrics,
+            })
+        }
+
+        /**
+        Process a batch, returning the remainder to retry on failure.
+        */
+        pub fn on_batch(&mut self, batch: Vec<Box<[u8]>>) -> Result<(), Option<Vec<Box<[u8]>>>> {
+            let mut event_batch = EventBatch::new();
+
+            for buf in batch {
+                event_batch.push(buf);
+            }
+
+            self.worker.on_batch(event_batch).map_err(|err| {
+                err.into_retryable().map(|mut retryable| {
+                    let mut remainder = Vec::new();
+
+                    while let Some(buf) = retryable.current() {
+                        remainder.push(Box::<[u8]>::from(buf));
+                        retryable.advance();
+                    }
+
+                    remainder
+                })
+            })
+        }
+
+        pub fn metric_source(&self) -> FileSetMetrics {
+            FileSetMetrics {
+                channel_metrics: None,
+                metrics: self.metrics.clone(),
+            }
+        }
+    }
+
+    impl FileSetBuilder {
+        /**
+        Spawn the real file set over injected components.
+        */
+        pub fn verif_spawn_with(
+            self,
+            fs: impl VerifFilesystem,
+            clock: impl Clock + Send + Sync + 'static,
+            rng: impl Rng + Send + Sync + 'static,
+        ) -> Result<FileSet, Error> {
+            let metrics = Arc::new(InternalMetrics::default());
+
+            let (dir, file_prefix, file_ext) = dir_prefix_ext(self.file_set).map_err(Error::new)?;
+
+            let mut worker = Worker::new(
+                metrics.clone(),
+                FilesystemAdapter(fs),
+                clock,
+                rng,
+                dir,
+                file_prefix,
+                file_ext,
+                self.roll_by,
+                self.reuse_files,
+                self.max_files,
+                self.max_file_size_bytes,
+                self.separator,
+            );
+
+            let (sender, receiver) = emit_batcher::bounded(10_000);
+
+            let handle = emit_batcher::sync::spawn("emit_file_worker", receiver, move |batch| {
+                worker.on_batch(batch)
+            })
+            .map_err(Error::new)?;
+
+            Ok(FileSet {
+                metrics: metrics.clone(),
+                inner: Some(FileSetInner {
+                    sender,
+                    metrics,
+                    writer: self.writer,
+                    separator: self.separator,
+                    _handle: handle,
+                }),
+            })
+        }
+    }
+}
+
 #[cfg(test)]
 mod tests {
     use super::*;
